@@ -28,8 +28,8 @@
      srv=c:<toks>|hs<+|-|0>|t:<toks>|r:<toks>   what the server received: in the clear before TLS,
                                           handshake result on its side, over TLS, raw after a failed handshake
      nd=<n>                               number of disconnect events
-     silent=<calls>/<blocked>             (silent rows) SSL_connect calls, 1 if tls_start only returned
-                                          after the peer closed
+     silent=<calls>/<blocked>/<secs>      (silent rows) SSL_connect calls, 1 if tls_start only returned
+                                          after the peer closed, whole seconds spent in the handshake
      hang=<0|1>                           the wall-clock bound of the driver was hit                   */
 #include "vharness.h"
 #include <pthread.h>
@@ -157,8 +157,9 @@ static struct {
     unsigned hostflags;
     int (*orig_cb)(int, X509_STORE_CTX *);
     int nv, pre[MAXV], ret[MAXV], depth[MAXV], err[MAXV];
-    int calls;
+    int calls, last_err;
     long t_first, t_last_ret;
+    unsigned char cw[2][2048]; size_t ncw[2]; /* plaintext written by the library with send(): before / after the handshake began */
 } obs;
 
 static int log_verify(int pre, X509_STORE_CTX *x)
@@ -192,7 +193,22 @@ int __wrap_SSL_connect(SSL *ssl)
     }
     obs.calls++;
     r = __real_SSL_connect(ssl);
+    obs.last_err = r <= 0 ? SSL_get_error(ssl, r) : 0;
     obs.t_last_ret = now_ms();
+    return r;
+}
+
+/* sock.c writes plaintext with send(); OpenSSL's socket BIO uses write(), the server thread too */
+ssize_t __real_send(int fd, const void *buf, size_t len, int flags);
+ssize_t __wrap_send(int fd, const void *buf, size_t len, int flags)
+{
+    ssize_t r = __real_send(fd, buf, len, flags | MSG_NOSIGNAL);
+    if (r > 0) {
+        int ph = obs.handshakes ? 1 : 0;
+        size_t room = sizeof(obs.cw[ph]) - obs.ncw[ph], n = (size_t)r < room ? (size_t)r : room;
+        memcpy(obs.cw[ph] + obs.ncw[ph], buf, n);
+        obs.ncw[ph] += n;
+    }
     return r;
 }
 
@@ -223,16 +239,27 @@ static int certfail(const xmpp_tlscert_t *cert, const char *const errormsg)
     return ans;
 }
 
+static const char *errname(int e)
+{
+    static char b[16];
+    if (e == 0) return "0";
+    if (e == ECONNABORTED) return "ABRT";
+    if (e == ECONNRESET) return "RST";
+    if (e == ETIMEDOUT) return "TMO";
+    snprintf(b, sizeof b, "%d", e);
+    return b;
+}
+
 static void conn_handler(xmpp_conn_t *conn, xmpp_conn_event_t status, int error, xmpp_stream_error_t *se, void *ud)
 {
     size_t l = strlen(usr.ev);
     int sec = xmpp_conn_is_secured(conn);
-    (void)error; (void)se; (void)ud;
+    (void)se; (void)ud;
     if (status == XMPP_CONN_CONNECT) {
         snprintf(usr.ev + l, sizeof(usr.ev) - l, "%sC%d", l ? "," : "", sec);
         xmpp_disconnect(conn);
     } else if (status == XMPP_CONN_DISCONNECT) {
-        snprintf(usr.ev + l, sizeof(usr.ev) - l, "%sD%d", l ? "," : "", sec);
+        snprintf(usr.ev + l, sizeof(usr.ev) - l, "%sD%d/%s", l ? "," : "", sec, errname(error));
         usr.ndisc++;
     } else
         snprintf(usr.ev + l, sizeof(usr.ev) - l, "%s?%d", l ? "," : "", sec);
@@ -262,6 +289,7 @@ static int srv_until(int fd, SSL *ssl, unsigned char *buf, size_t *n, size_t cap
     for (;;) {
         int p = contains(buf, *n, *mark, a), q;
         if (p >= 0 && (q = contains(buf, *n, (size_t)p, b)) >= 0) { *mark = (size_t)q; return 1; }
+        if (strcmp(a, "</stream:stream") && contains(buf, *n, *mark, "</stream:stream>") >= 0) return 0; /* client gave up */
         if (*n >= cap) return 0;
         {
             int r = ssl ? SSL_read(ssl, buf + *n, (int)(cap - *n)) : (int)recv(fd, buf + *n, cap - *n, 0);
@@ -274,7 +302,7 @@ static int srv_until(int fd, SSL *ssl, unsigned char *buf, size_t *n, size_t cap
 static void srv_send(int fd, SSL *ssl, const char *s)
 {
     if (ssl) SSL_write(ssl, s, (int)strlen(s));
-    else send(fd, s, strlen(s), MSG_NOSIGNAL);
+    else if (write(fd, s, strlen(s)) < 0) { /* peer gone */ }
 }
 
 #define HDR "<?xml version='1.0'?><stream:stream xmlns='jabber:client' xmlns:stream='http://etherx.jabber.org/streams' " \
@@ -422,7 +450,7 @@ int main(int argc, char **argv)
         pthread_t th;
         xmpp_conn_t *conn;
         long flags = 0, t0, limit;
-        char tc[64], tt[64], tr[64];
+        char tc[64], tt[64], tr[64], w0[64], w1[64];
 
         if (!line[0] || line[0] == '#') { puts(""); continue; }
         if (sscanf(line, "%31s %31s %31s %31s %d", kind_s, mode_s, entry_s, ca_s, &silent_ms) < 4) { puts("bad-input"); fflush(stdout); continue; }
@@ -481,10 +509,13 @@ int main(int argc, char **argv)
         tokens(srv->clr, srv->nclr, tc, sizeof tc);
         tokens(srv->enc, srv->nenc, tt, sizeof tt);
         tokens(srv->raw, srv->nraw, tr, sizeof tr);
+        tokens(obs.cw[0], obs.ncw[0], w0, sizeof w0);
+        tokens(obs.cw[1], obs.ncw[1], w1, sizeof w1);
+        printf(" te=%d cw=%s|%s", obs.last_err, w0, w1);
         printf(" srv=c:%s|hs%s|t:%s|r:%s nd=%d", tc, srv->hs < 0 ? "0" : srv->hs ? "+" : "-", tt, tr, usr.ndisc);
         if (silent_ms)
-            printf(" silent=%s/%d", obs.calls > 1 ? "looped" : obs.calls ? "once" : "never",
-                   (srv->t_close && obs.t_last_ret >= srv->t_close) ? 1 : 0);
+            printf(" silent=%s/%d/%ld", obs.calls > 1 ? "looped" : obs.calls ? "once" : "never",
+                   (srv->t_close && obs.t_last_ret >= srv->t_close) ? 1 : 0, (obs.t_last_ret - obs.t_first + 50) / 1000);
         printf(" hang=%d\n", hang);
         fflush(stdout);
 
